@@ -8,14 +8,63 @@ use super::*;
 use vstd::prelude::*;
 pub type Result<T> = core::result::Result<T, Error>;
 
+//@if encoding
+/// the piece of input the encoding sniff sees: what the first successful fill_buf returns
+pub open spec fn first_piece<R: BufRead>(r: &R) -> Seq<u8> {
+    if r.next_len() <= r.rest().len() { r.rest().subrange(0, r.next_len() as int) } else { r.rest() }
+}
+//@endif
 impl<'b, R: BufRead> XmlSource<'b, &'b mut Vec<u8>> for R {
     open spec fn remaining(&self) -> Seq<u8> { self.rest() }
     open spec fn faults(&self) -> nat { self.nfaults() }
     open spec fn buffered(&self) -> nat { self.avail() }
     /// the sniff sees exactly the first piece the reader delivers, however often it is interrupted before (C02, C18)
+//@if encoding
+    open spec fn after_bom(&self) -> Seq<u8> {
+        self.rest().subrange(bom_len(first_piece(self)) as int, self.rest().len() as int)
+    }
+    open spec fn bom_enc(&self) -> Option<u8> { sniffed(first_piece(self)) }
+    proof fn law_after_bom(&self) {
+        lemma_bom_prefix(first_piece(self), self.rest());
+        if bom_len(first_piece(self)) == 0 { assert(self.after_bom() =~= self.rest()); }
+    }
+//@else
     open spec fn after_bom(&self) -> Seq<u8> { if self.next_len() >= 3 { strip_bom(self.rest()) } else { self.rest() } }
     proof fn law_after_bom(&self) {}
+//@endif
 
+//@if encoding
+//@extract buffered::detect_encoding | src/reader/buffered_reader.rs :: impl<'b, R: BufRead> XmlSource<'b, &'b mut Vec<u8>> for R :: invoke impl_buffered_source :: fn detect_encoding | serves=C01,C02,C03,C08,C12,C17,C18
+ #[verifier::loop_isolation(false)]
+ #[verifier::allow_complex_invariants]
+ fn detect_encoding(&mut self) -> (r: io::Result<Option<&'static encoding_rs::Encoding>>) {
+            let __lv1: io::Result<Option<&'static Encoding>>; loop
+                invariant_except_break self.rest() == old(self).rest(), self.nfaults() == old(self).nfaults(), self.next_len() == old(self).next_len(),
+                ensures
+                    (__lv1 is Err) == (self.nfaults() > old(self).nfaults()), self.nfaults() >= old(self).nfaults(),
+                    match __lv1 {
+                        Ok(e) => self.rest() == old(self).after_bom() && match e {
+                            Some(enc) => old(self).bom_enc() == Some(enc.id),
+                            None => old(self).bom_enc() is None,
+                        },
+                        Err(_) => self.rest() == old(self).rest(),
+                    },
+                decreases self.budget()
+            {
+                { __lv1 = match self .fill_buf() {
+                    Ok(n) => if let Some((enc, bom_len)) = crate::encoding::detect_encoding(n) {
+                        self .consume(bom_len);
+                        Ok(Some(enc))
+                    } else {
+                        Ok(None)
+                    },
+                    Err(ref e) if e.kind() == io::ErrorKind::Interrupted => continue,
+                    Err(e) => Err(e),
+                }; break; };
+            } __lv1
+        }
+//@end
+//@else
 //@extract buffered::remove_utf8_bom | src/reader/buffered_reader.rs :: impl<'b, R: BufRead> XmlSource<'b, &'b mut Vec<u8>> for R :: invoke impl_buffered_source :: fn remove_utf8_bom | serves=C01,C02,C03,C08,C12,C17,C18
  #[verifier::loop_isolation(false)]
  #[verifier::allow_complex_invariants]
@@ -48,6 +97,7 @@ impl<'b, R: BufRead> XmlSource<'b, &'b mut Vec<u8>> for R {
             } __lv1
         }
 //@end
+//@endif
 
 //@extract buffered::read_text | src/reader/buffered_reader.rs :: impl<'b, R: BufRead> XmlSource<'b, &'b mut Vec<u8>> for R :: invoke impl_buffered_source :: fn read_text | serves=C01,C02,C03,C08,C12,C18
  #[verifier::loop_isolation(false)]
